@@ -188,15 +188,15 @@ Definition evaluate (text gold : list str) (units : option (list str)) : result 
                    s_ari := None |} in
     match units with
     | None => Ok base
-    | Some [] => Ok base                       (* `if units:` *)
-    | Some us0 =>
+    | Some us0 =>                              (* `if units is not None:` (fix f716c25; was `if units:`) *)
       let text := filter nonblank text in
       let gold := filter nonblank gold in
       let us := filter nonblank us0 in
       do lt <- compute_class_labels text us;
       do lg <- compute_class_labels gold us;
       Ok {| s_token := s_token base; s_type := s_type base; s_ball := s_ball base;
-            s_bnoedge := s_bnoedge base; s_ari := Some (ari lg lt) |}
+            s_bnoedge := s_bnoedge base;
+            s_ari := match lg with [] => None | _ => Some (ari lg lt) end |}   (* no unit at all: no index *)
     end.
 
 (* ---------- error summary ---------- *)
